@@ -108,6 +108,18 @@ func checkC20(c *Check, p *Program) {
 			c.Decide(leaves && rets >= 1, "C20.D1", name+" timeout case returns", pos, "the timer case leaves the loop and returns", "the timeout case does not end the call")
 			// what the timeout returns: nil result (describe) / the collected slice (discover) with nil error: judged in D4
 		}
+		// a return that is not reached through the wait loop is a failure of the set-up (dial, request construction,
+		// transmission) and says so: "no result" without an error is reserved for the elapsed timeout
+		inLoop := reachableFrom(lp.Header, nil)
+		nEarly := 0
+		for _, r := range returnsOf(fn) {
+			if inLoop[r.Block()] || len(r.Results) < 2 {
+				continue
+			}
+			nEarly++
+			c.Decide(!p.returnMayBeNil(r, 1), "C20.D1", name+" return before the wait reports an error", p.InstrPos(r), "non-nil error", "the call can end before the wait loop without an error: the caller reads it as 'nobody answered within the timeout' although no request was sent or the timeout has not run")
+		}
+		c.Floor("C20.D1", name+" set-up failure exits", nEarly, 1)
 		// ---- D2
 		var closeDefer *ssa.Defer
 		var sock ssa.Value
